@@ -294,6 +294,28 @@ def run_block(stmts, env, funcs=None, limit=10000):
                     break
                 if r[0] == 'return':
                     return r
+        elif isinstance(s, ast.While):
+            n_it = 0
+            while ev(s.test, env, funcs):
+                n_it += 1
+                if n_it > limit:
+                    raise Unsupported('loop bound')
+                r = run_block(s.body, env, funcs, limit)
+                if r[0] == 'break':
+                    break
+                if r[0] == 'return':
+                    return r
+        elif isinstance(s, ast.Delete):
+            for t in s.targets:
+                if isinstance(t, ast.Subscript):
+                    base = ev(t.value, env, funcs)
+                    key = ev(t.slice, env, funcs)
+                    if isinstance(base, dict):
+                        if key not in base:
+                            raise Unsupported('deletion of an absent key %r' % (key,))
+                        del base[key]
+                        continue
+                raise Unsupported('del %s' % ast.unparse(t))
         elif isinstance(s, ast.Break):
             return ('break', None)
         elif isinstance(s, ast.Continue):
